@@ -668,3 +668,87 @@ package quic
 //@ loop (qfs QUICFrames) buildAbsolute #0
 //@   invariant payload == nil || isfresh(payload)
 //@   modifies payload[*]
+
+// ---------------- Initial packet spec (C10) ----------------
+//@ func (ps *InitialPacketSpec) initialPN
+//@   props C10
+//@   ensures [in-range] result == ite(ps.InitPacketNumber > 4611686018427387903, 0, tomath(ps.InitPacketNumber))
+//@   ensures [valid] 0 <= result && result <= 4611686018427387903
+//@   modifies nothing
+
+//@ func (ps *InitialPacketSpec) tokenLength
+//@   props C10
+//@   ensures result == max(ps.ClientTokenLength, len(ps.ClientTokenPrefix))
+//@   modifies nothing
+
+//@ func (ps *InitialPacketSpec) planFor
+//@   props C10 C09
+//@   requires idx >= 0
+//@   ensures [none] implies(len(ps.InitialPackets) == 0, result.CryptoLength == 0 && result.PacketSize == 0)
+//@   ensures [last-repeats] implies(len(ps.InitialPackets) > 0, result.CryptoLength == ps.InitialPackets[min(idx, len(ps.InitialPackets) - 1)].CryptoLength && result.PacketSize == ps.InitialPackets[min(idx, len(ps.InitialPackets) - 1)].PacketSize)
+//@   modifies nothing
+
+//@ func (ps *InitialPacketSpec) getTokenStore
+//@   props C10
+//@   let n = max(ps.ClientTokenLength, len(ps.ClientTokenPrefix))
+//@   ensures [explicit-wins] implies(ps.TokenStore != nil, result == ps.TokenStore)
+//@   ensures [absent] implies(ps.TokenStore == nil && n <= 0, result == nil)
+//@   ensures [synthesised] implies(ps.TokenStore == nil && n > 0, typeis(result, *dummyTokenStore) && dyn(result, *dummyTokenStore).tokenLength == n && samearray(dyn(result, *dummyTokenStore).prefix, ps.ClientTokenPrefix) && len(dyn(result, *dummyTokenStore).prefix) == len(ps.ClientTokenPrefix))
+//@   modifies nothing
+
+//@ extern crypto/rand.Read
+//@   ensures result0 == len(b) && result1 == nil
+//@   modifies b[:]
+
+//@ func (d *dummyTokenStore) Pop
+//@   props C10
+//@   requires 0 <= d.tokenLength && d.tokenLength <= 1099511627776
+//@   ensures [length] result != nil && len(result.data) == d.tokenLength
+//@   ensures [fresh-per-dial] isfresh(result.data)
+//@   ensures [prefix] forall(k, 0, min(len(d.prefix), d.tokenLength), result.data[k] == d.prefix[k])
+//@   modifies nothing
+
+// ---------------- Initial packet serialisation (C10) ----------------
+//@ const aeadOvh = ufi("aead.overhead")
+//@ iface (s quic.sealer) Overhead
+//@   ensures result == ufi("aead.overhead") && 0 <= result && result <= 64
+//@   modifies nothing
+//@ iface (s quic.sealer) Seal
+//@   modifies dst[:]
+//@ iface (s quic.sealer) EncryptHeader
+//@   modifies *firstByte, pnBytes[:]
+//@ iface (m quic.packetNumberManager) PopPacketNumber
+//@   modifies nothing
+//@ iface (m quic.packetNumberManager) PeekPacketNumber
+//@   modifies nothing
+
+//@ func (p *packetPacker) encryptPacket
+//@   props C10
+//@   requires sealer != nil && 0 <= pnLen && pnLen <= payloadOffset && payloadOffset <= len(raw) && len(raw) >= 1
+//@   requires len(raw) + ufi("aead.overhead") <= cap(raw) && payloadOffset - pnLen + 20 <= cap(raw)
+//@   ensures [len] len(result) == len(raw) + ufi("aead.overhead")
+//@   ensures [in-place] samearray(result, raw) && cap(result) == cap(raw)
+//@   modifies raw[:]
+
+//@ func (p *uPacketPacker) appendInitialPacketPayload
+//@   props C10
+//@   let ps = p.uSpec.InitialPacketSpec
+//@   let np = len(ps.InitialPackets)
+//@   let psize = ite(np == 0, 0, ps.InitialPackets[min(idx, np - 1)].PacketSize)
+//@   let ovh = ufi("aead.overhead")
+//@   let hl = wire.hdrlen(int(header.DestConnectionID.l), int(header.SrcConnectionID.l), int(header.PacketNumberLen), header.Type == protocol.PacketTypeInitial, len(header.Token))
+//@   let minudp = ite(p.uSpec.UDPDatagramMinSize == 0, 1200, p.uSpec.UDPDatagramMinSize)
+//@   let cur = hl + old(len(uPayload)) + ovh
+//@   let plen = ite(psize > cur, psize, cur)
+//@   requires p.uSpec != nil && p.packetPacker != nil && p.packetPacker.pnManager != nil && header != nil && buffer != nil && sealer != nil && idx >= 0
+//@   requires header.Type != protocol.PacketTypeRetry && len(header.Token) <= 65536 && len(uPayload) <= 65536 && cap(buffer.Data) <= 16383 && 0 <= psize && psize <= 1048576 && 0 <= p.uSpec.UDPDatagramMinSize && p.uSpec.UDPDatagramMinSize <= 1048576
+//@   requires header.DestConnectionID.l <= 20 && header.SrcConnectionID.l <= 20
+//@   requires len(uPayload) + header.PacketNumberLen + ovh >= 20
+//@   ensures [too-big-rejected] implies(plen > old(cap(buffer.Data)) - old(len(buffer.Data)), result1 != nil && len(buffer.Data) == old(len(buffer.Data)))
+//@   ensures [exact-size] implies(result1 == nil && psize > 0, len(buffer.Data) == old(len(buffer.Data)) + plen && result0.length == plen)
+//@   ensures [exact-size-reached] implies(result1 == nil && psize >= cur, result0.length == psize)
+//@   ensures [min-udp-size] implies(result1 == nil && psize == 0, len(buffer.Data) == max(old(len(buffer.Data)) + plen, minudp) && result0.length == plen)
+//@   ensures [within-buffer] implies(result1 == nil && (psize > 0 || minudp <= old(cap(buffer.Data))), len(buffer.Data) <= old(cap(buffer.Data)) && samearray(buffer.Data, old(buffer.Data)))
+//@   ensures [length-field] implies(result1 == nil, header.Length == header.PacketNumberLen + ovh + (plen - hl - ovh) && result0.header == header)
+//@   ensures [pn-consumed-once] implies(result1 == nil, called("(quic.packetNumberManager).PopPacketNumber") == 1)
+//@   modifies header.Length, buffer.Data, elems(uint8)
